@@ -108,7 +108,14 @@ func (vector *Vector) InnerProduct(other Vector) (res {{.ElementName}}) {
 		innerProductVecGeneric(&res, *vector, other)
 		return
 	}
-	innerProdVec(&res[0], &(*vector)[0], &other[0], uint64(len(*vector)))
+	// innerProdVec loads the limbs of the receiver with 64-bit broadcasts: for the last limb of an
+	// element that reads 4 bytes past it. Keep the last element of the slice out of the assembly.
+	if n > 1 {
+		innerProdVec(&res[0], &(*vector)[0], &other[0], n-1)
+	}
+	var last {{.ElementName}}
+	last.Mul(&(*vector)[n-1], &other[n-1])
+	res.Add(&res, &last)
 
 	return
 }
